@@ -148,6 +148,20 @@ def records(ck, rnd, circuits, ms, per_circuit_opts=None):
                     rec = lsim.record(c, st, m, lanes, stim, reuse, strip, use_cb, rnd, cycles=cyc, wide=wide, force_warm=static)
                     recs.append(rec)
                     meta.append(dict(circuit=gen.circuit_state(c), m=m, lanes=lanes, stim=stim, reuse=reuse, strip=strip, cb=use_cb, cyc=list(cyc), wide=wide, static=static))
+        if ci > 13 and len(c.io_nodes) >= 2 and rnd.random() < 0.2:
+            # history: the SAME circuit object after its port list was reordered (io_nodes is a public list; numbers of nodes and
+            # lines unchanged) - a simulator built now follows the new order of ports
+            i, j = rnd.sample(range(len(c.io_nodes)), 2)
+            c.io_nodes[i], c.io_nodes[j] = c.io_nodes[j], c.io_nodes[i]
+            st2 = lsim.struct(c)
+            m = 2
+            lanes = rnd.choice([5, 8, 13])
+            stim = lsim.rand_stim(rnd, m, slen, lanes)
+            reuse, strip = rnd.random() < 0.5, rnd.random() < 0.5
+            cyc = (1, 2) if any(x for x in st2['seq']) else ()
+            recs.append(lsim.record(c, st2, m, lanes, stim, reuse, strip, False, rnd, cycles=cyc))
+            meta.append(dict(circuit=gen.circuit_state(c), m=m, lanes=lanes, stim=stim, reuse=reuse, strip=strip, cb=False, cyc=list(cyc), wide=None, static=False))
+            ck.count('ports-reordered-between-simulators')
     return recs, meta
 
 
